@@ -89,9 +89,13 @@ def cmp_cfg(m, i, strict_prev_order=False):
         if m_err != ("err" in i) and m.get("structured") is not False:
             diffs.append(f"error status differs: model={str(norm_err(m))[:200]} impl={norm_err(i)}")
         return diffs
-    for k in ("version", "mode", "retained_lines"):
+    for k in ("version", "mode", "retained_lines", "mixed", "contract_type"):
         if m.get(k) != i.get(k):
             diffs.append(f"{k}: model={m.get(k)} impl={i.get(k)}")
+    if sorted(map(tuple, m.get("flags", []))) != sorted(map(tuple, i.get("flags", []))):
+        diffs.append(f"version flags: model={m.get('flags')} impl={i.get('flags')}")
+    if {k: str(v) for k, v in m.get("costs", {}).items()} != {k: str(v) for k, v in i.get("costs", {}).items()}:
+        diffs.append(f"block costs: model={m.get('costs')} impl={i.get('costs')}")
     mi = None if m.get("intcs") is None else [str(x) for x in m["intcs"]]
     if mi != i.get("intcs"):
         diffs.append(f"intcs: model={mi} impl={i.get('intcs')}")
